@@ -363,6 +363,8 @@ def p_len(I, n, pos, kw):
             out = sym.add(out, r.e)
         return Sc(out)
     if isinstance(v, ObjV) and v.tag == "hk_matching":
+        if "len_expr" in v.attrs:
+            return Sc(v.attrs["len_expr"])
         return Sc(sym.Opq("hk_len", v.attrs.get("deps", ()), v.attrs.get("uid")))
     if isinstance(v, ObjV) and v.tag == "bucket":
         root = v.attrs["root"]
@@ -847,6 +849,9 @@ def p_array_equal(I, n, pos, kw):
 def p_sort(I, n, pos, kw):
     v = pos[0]
     tgt = I.log[-1]["target"]
+    c_ = _candidates(I, v)
+    if c_ is not None and "reverse" not in kw:
+        return c_
     I.event("sort", n, arg=v, kwargs=kw)
     axis = kw.get("axis", pos[1] if len(pos) > 1 and tgt == "numpy.sort" else None)
     if isinstance(v, Arr) and v.ndim == 2 and axis is not None and isinstance(axis, Sc) and axis.e == sym.ZERO:
@@ -878,9 +883,30 @@ def p_sort(I, n, pos, kw):
     return I.unknown("sort", n, (generic_elem(v),))
 
 
+def _candidates(I, v):
+    """in a run that follows the threshold search on a fixed list of candidates: the sorted distinct entries of the cost
+    matrix are that list (flags['candidates'] = names of symbols in increasing order)"""
+    names = I.cfg.flags.get("candidates")
+    if not names:
+        return None
+    cs = I.__dict__.get("_cand_seq")
+    if cs is not None and v is cs:
+        return cs
+    uid = v.src if isinstance(v, Bag) else getattr(v, "uid", None)
+    if uid is not None and uid in I.blocks:
+        if cs is None:
+            cs = Seq([Sc(sym.Sym(c)) for c in names], "list")
+            I.__dict__["_cand_seq"] = cs
+        return cs
+    return None
+
+
 @prim("numpy.unique")
 def p_unique(I, n, pos, kw):
     v = pos[0]
+    c_ = _candidates(I, v)
+    if c_ is not None:
+        return c_
     if isinstance(v, Bag):
         return Bag(v.elem, None, True, v.src, v.parts)
     f = arrays.flatten(v)
@@ -1130,12 +1156,32 @@ def m_maximum_matching(I, n, recv, pos, kw):
                     if isinstance(x, PSet):
                         psets.append(sym.Opq("count", (x.pred,), None))
             conds = conds + tuple(psets)
+        ff = I.cfg.flags.get("feasible_from")
+        if ff is not None:
+            # the search is followed with a feasibility oracle: a perfect matching exists iff the probed candidate is the
+            # ff-th or a later one (feasibility is monotone in the threshold)
+            names = I.cfg.flags.get("candidates") or []
+            probed = set()
+            for c_ in conds:
+                if isinstance(c_, sym.Expr):
+                    probed |= {x[1] for x in sym.walk(c_) if x[0] == "sym" and x[1] in names}
+            if len(probed) == 1 and I.blocks:
+                k_ = names.index(next(iter(probed)))
+                big = max(I.blocks.values(), key=lambda b_: len(b_.stores))
+                size = sym.scale(big.shape[0], 2.0) if k_ >= ff else sym.ZERO
+                return ObjV(None, dict(deps=conds, uid=uid, graph=g, len_expr=size), tag="hk_matching")
+            return I.unknown("matching-of-unknown-threshold", n)
         return ObjV(None, dict(deps=conds, uid=uid, graph=g), tag="hk_matching")
     return I.unknown("maximum_matching", n)
 
 
 @prim("bisect.bisect_left")
 def p_bisect(I, n, pos, kw):
+    if len(pos) == 2 and isinstance(pos[0], ObjV) and pos[0].tag == "range" and isinstance(pos[1], Sc):
+        lo, hi, k = pos[0].attrs["lo"].e, pos[0].attrs["hi"].e, pos[1].e
+        if all(x[0] == "num" for x in (lo, hi, k)):
+            # position of k in lo, lo+1, …, hi-1
+            return Sc(sym.Num(min(max(int(k[1]) - int(lo[1]), 0), max(int(hi[1]) - int(lo[1]), 0))))
     return Sc(sym.Opq("bisect", tuple(generic_elem(x) for x in pos if isinstance(x, Sc)), fresh("k")))
 
 
